@@ -154,12 +154,12 @@ def with_solves(events, names, rng, only=None):
 
 def history_cases(singles, names, rng, tier):
     """A sample of the single constraints again as the LAST manager of a process in which 2-3 other managers
-    encoded other inequalities before.  quick: 1500 diagram-reaching constraints, one order of the earlier
+    encoded other inequalities before.  quick: 1000 diagram-reaching constraints, one order of the earlier
     encodings each; thorough: 6000 of them in EVERY order of the 2-3 earlier encodings, plus 1500 others."""
     pool = [c for c in singles if reaches_diagram(c) and len(c["terms"]) >= 2]
     if not pool:
         return []
-    probes = rng.sample(pool, min(len(pool), 1500 if tier == "quick" else 6000))
+    probes = rng.sample(pool, min(len(pool), 1000 if tier == "quick" else 6000))
     if tier == "thorough":
         rest = [c for c in singles if c["kind"] in ("pb", "amo") and not reaches_diagram(c)]
         probes += rng.sample(rest, min(len(rest), 1500))
@@ -233,6 +233,77 @@ def random_cases(rng: random.Random, n: int):
     return cases
 
 
+# --------------------------------------------------------------------------- a small forking helper
+class Runner:
+    """A helper process forked while this process is still SMALL (FRAME imported, nothing generated yet).
+    Every history needs its own freshly forked interpreter; a fork costs time proportional to the memory of the
+    forking process, and the driver grows by hundreds of MB once TLC's histories are loaded.  So the per-history
+    forks are done by this helper (forkpool.run_cases inside it), which only ever holds one batch.
+    The helper imports tools.rect but never uses it: its children start from a pristine pseudobool store."""
+
+    def __init__(self, ctx: Ctx):
+        import os
+        import pickle
+        self.ctx, self.n = ctx, 0
+        req_r, req_w = os.pipe()
+        ack_r, ack_w = os.pipe()
+        self.pid = os.fork()
+        if self.pid == 0:
+            os.close(req_w)
+            os.close(ack_r)
+            rc = 0
+            try:
+                with os.fdopen(req_r, "r") as rq, os.fdopen(ack_w, "w") as ak:
+                    for line in rq:
+                        fin, fout = line.strip().split("\t")
+                        try:
+                            with open(fin) as f:
+                                batch = [x.rstrip("\n") for x in f]
+                            res = run_cases(run_process, batch, nproc=16, fresh=True)
+                            with open(fout, "wb") as f:
+                                pickle.dump(("ok", res), f)
+                        except BaseException as e:  # machinery problem: hand it to the driver
+                            with open(fout, "wb") as f:
+                                pickle.dump(("error", f"{type(e).__name__}: {e}"), f)
+                        ak.write("done\n")
+                        ak.flush()
+            except BaseException:
+                rc = 1
+            os._exit(rc)
+        os.close(req_r)
+        os.close(ack_w)
+        self.req = os.fdopen(req_w, "w")
+        self.ack = os.fdopen(ack_r, "r")
+
+    def run(self, texts: list[str]) -> list:
+        import os
+        import pickle
+        self.n += 1
+        fin, fout = self.ctx.path(f"batch-{self.n}.in"), self.ctx.path(f"batch-{self.n}.out")
+        with open(fin, "w") as f:
+            for t in texts:
+                f.write(t + "\n")
+        self.req.write(f"{fin}\t{fout}\n")
+        self.req.flush()
+        if self.ack.readline().strip() != "done":
+            raise MachineryError("the forking helper died")
+        with open(fout, "rb") as f:
+            status, res = pickle.load(f)
+        os.remove(fin)
+        os.remove(fout)
+        if status != "ok":
+            raise MachineryError(f"forking helper: {res}")
+        return res
+
+    def close(self):
+        import os
+        try:
+            self.req.close()
+            os.waitpid(self.pid, 0)
+        except Exception:
+            pass
+
+
 # --------------------------------------------------------------------------- decide
 def features_of(e, case, idx):
     c = e["c"]
@@ -241,12 +312,20 @@ def features_of(e, case, idx):
             "event": e["ev"]}
 
 
-def decide(ctx: Ctx, cases: list[str], cfg: str = "SatTrace"):
+BATCH = 25000
+
+
+def decide(ctx: Ctx, runner: Runner, cases: list[str], cfg: str = "SatTrace") -> int:
     """cases: JSON texts of process histories.  cfg: SatTrace (truth tables over a..g) or SatTrace3 (a..c: cheaper
-    for the many histories that use at most three variables)."""
-    prepare_imports()
-    import tools.rect.satmanager  # noqa: F401  (imported in the parent, never used there: the store stays pristine)
-    results = run_cases(run_process, cases, nproc=16, fresh=True)
+    for the many histories that use at most three variables).  Works batch by batch."""
+    n = 0
+    for i in range(0, len(cases), BATCH):
+        n += _decide_batch(ctx, runner, cases[i:i + BATCH], cfg, first=(i == 0))
+    return n
+
+
+def _decide_batch(ctx: Ctx, runner: Runner, cases: list[str], cfg: str, first: bool) -> int:
+    results = runner.run(cases)
     traces, owners = {}, {}
     for cj, (st, val) in zip(cases, results):
         c = json.loads(cj)
@@ -265,7 +344,7 @@ def decide(ctx: Ctx, cases: list[str], cfg: str = "SatTrace"):
             t["id"] = key
             traces[key] = t
             owners[key] = {"case": cj, "errs": [o.get("err") for o in val]}
-    verdicts = tlc.validate_traces(ctx, "SatTrace", cfg, list(traces.values()), chunk=6000)
+    verdicts = tlc.validate_traces(ctx, "SatTrace", cfg, list(traces.values()), chunk=25000)
     for key, v in verdicts.items():
         t, own = traces[key], owners[key]
         full = 1 << len(t["vars"])
@@ -295,7 +374,7 @@ def decide(ctx: Ctx, cases: list[str], cfg: str = "SatTrace"):
         for (l, what) in v["drift"]:
             if l < first_fail:
                 ctx.model_drift(f"{what}: differs from the detailed model (Robdd/SatLayer); property clauses hold")
-    for t in list(traces.values())[:3]:
+    for t in (list(traces.values())[:3] if first else []):
         ctx.sample({"vars": t["vars"], "events": [{k: e[k] for k in ("ev", "m", "c", "refused", "proj", "sat", "model")} for e in t["events"][:4]]})
     return len(traces)
 
@@ -314,10 +393,20 @@ def _mc(ctx, cfg, kinds):
 
 
 def run(ctx: Ctx) -> int:
+    prepare_imports()
+    import tools.rect.satmanager  # noqa: F401  (imported here, never used in this process: the store stays pristine)
+    runner = Runner(ctx)          # forked now, while this process is small
+    try:
+        return _run(ctx, runner)
+    finally:
+        runner.close()
+
+
+def _run(ctx: Ctx, runner: Runner) -> int:
     if ctx.replay:
         rec = json.load(open(ctx.replay))
         c = rec["case"]
-        decide(ctx, [json.dumps({"vars": c["vars"], "detail": c.get("detail", 0), "events": c["events"], "src": "replay"})])
+        decide(ctx, runner, [json.dumps({"vars": c["vars"], "detail": c.get("detail", 0), "events": c["events"], "src": "replay"})])
         return ctx.finish("model_checking", "replay of one recorded process history")
     tier = ctx.tier
     rng = random.Random(ctx.seed * 1000003 + 7)
@@ -326,7 +415,7 @@ def run(ctx: Ctx) -> int:
     allk = ("clause", "imply", "amo", "pb")
     cfgs = [("wide", allk), ("amo", ("amo",)), ("seq", ("amo", "pb"))]
     if tier == "thorough":
-        cfgs = [("wide", allk), ("amo", ("amo",)), ("seq", allk), ("amo2", ("amo",)), ("seq3", ("pb",))]
+        cfgs = [("wide", allk), ("amo", ("amo",)), ("seq", ("clause", "amo", "pb")), ("amo2", ("amo",)), ("seq3", ("pb",))]
     small, big, singles, wide_names = [], [], [], []
     for name, kinds in cfgs:
         hs = _mc(ctx, f"SatLayer_{tier}_{name}", kinds)
@@ -339,9 +428,9 @@ def run(ctx: Ctx) -> int:
         del hs
     n_tlc = len(small) + len(big)
     hist = history_cases(singles, wide_names, rng, tier)
-    rnd = random_cases(rng, 1500 if tier == "quick" else 20000)
-    ntr = decide(ctx, small + hist, "SatTrace3")
-    ntr += decide(ctx, big + [json.dumps(c) for c in rnd], "SatTrace")
+    rnd = random_cases(rng, 1200 if tier == "quick" else 20000)
+    ntr = decide(ctx, runner, small + hist, "SatTrace3")
+    ntr += decide(ctx, runner, big + [json.dumps(c) for c in rnd], "SatTrace")
     ctx.extra["cases_from_tlc"] = n_tlc
     ctx.extra["history_cases"] = len(hist)
     ctx.extra["random_cases"] = len(rnd)
